@@ -22,8 +22,8 @@ def run(pid, tier, replay=None):
     tlc_must_pass(res, "Plu design model")
     ck.add_tlc(res, "plu_design_all_3x3")
     ck.part("plu_design_all_3x3", invariants=["Recon (P*A = L*U)", "MultBound", "Perm", "SignIsParity", "DetOK (Leibniz)", "FailIffSingular"])
-    cfg2 = vlib.write_cfg(sc.path("fac.cfg"), ["CONSTANTS NSet = %s" % ("{2, 3}" if q else "{2, 3, 4}"), " LNum <- %s" % ("Lq" if q else "Lq"), " DNum <- %s" % ("Dq" if q else "Dq"),
-                                                " ONum <- %s" % ("Oq" if q else "Oq"), "INIT Init", "NEXT Next", "ACTION_CONSTRAINT Emit", "CHECK_DEADLOCK FALSE"])
+    cfg2 = vlib.write_cfg(sc.path("fac.cfg"), ["CONSTANTS NSet = %s" % ("{2, 3}" if q else "{2, 3, 4}"), " NPlu = {2, 3}", " LNum <- %s" % ("Lq" if q else "Lt"), " DNum <- %s" % ("Dq" if q else "Dt"),
+                                                " ONum <- %s" % ("Oq" if q else "Ot"), "INIT Init", "NEXT Next", "ACTION_CONSTRAINT Emit", "CHECK_DEADLOCK FALSE"])
     out = sc.path("fac.out")
     res2 = tlc(os.path.join(SPECDIR, "FactorMC.tla"), cfg2, sc, timeout=3000, heap="12g", capture_prefix="2020202", stdout_path=out)
     tlc_must_pass(res2, "FactorMC")
